@@ -127,7 +127,7 @@ Proof. exact union_retyped_refuted. Qed.
 Print Assumptions C08_union_retyped_refuted.
 
 (* ---------- the EMITTED decoders: lowered to ops (see Properties/C02.v, C02_emitted_ops_match, for the table lemma) ---------- *)
-From PVGen Require Import EmitOps EmitDen Generated.EmittedOps Proofs.EmitOpsP Proofs.EmitTableP.
+From PVGen Require Import EmitOps EmitDen Generated.EmittedOps Proofs.EmitOpsP Proofs.EmitDecP Proofs.EmitTableP.
 
 (* for every struct / union of the corpus, in the plain and in the keep_unknown_fields configuration, the regenerated
    decoder -- variables and their initialisers, the loop head, the arms (field id, TType guard, assigned variable,
@@ -143,3 +143,17 @@ Theorem C08_emitted_decode_arms : forall n r ck em,
      exists nm e eu s su d, r = EUnion nm e eu s su d /\ norm_du d = presc_dunion corpus_schema ck vs vo keep).
 Proof. exact emitted_decode_arms. Qed.
 Print Assumptions C08_emitted_decode_arms.
+
+(* the decoder rows the template model prescribes for a build without retention denote Gen.gen_decode: every well-formed
+   schema, protocol, fuel, declared type, reader state (ARBITRARY bytes).  The VALUES of the defaults are a parameter of the
+   denotation (dfl_of S: the default expressions are not lowered; their meaning is C20's subject) *)
+Theorem C08_ops_denote_decode : forall S p, void_variants_zero S = true -> wf_schema S = true -> forall fuel t s,
+  den_dec (presc_tbl S false) (dfl_of S) p fuel (presc_rop t) s = gen_decode S p fuel t s.
+Proof. exact den_dec_presc. Qed.
+Print Assumptions C08_ops_denote_decode.
+
+(* the chain for the corpus of this run: the regenerated decoder rows of the plain build denote the model decoder *)
+Theorem C08_emitted_decode_is_model : forall p fuel t s,
+  den_dec (map norm_row emitted_plain) (dfl_of corpus_schema) p fuel (presc_rop t) s = gen_decode corpus_schema p fuel t s.
+Proof. exact emitted_decode_is_model. Qed.
+Print Assumptions C08_emitted_decode_is_model.
